@@ -120,6 +120,12 @@ class TupleV(V):
         return f"Tuple{self.items}"
 
 
+class PyDictV(V):
+    """A dict literal known on the python side (ordered pairs of values), e.g. the identifier table of a resolver."""
+    def __init__(self, pairs):
+        self.pairs = list(pairs)
+
+
 class KwV(V):
     """A **kwargs mapping known on the python side."""
     def __init__(self, d):
